@@ -3,7 +3,8 @@
 //! case `(shape wrap dep initial events)`: one `ArcAsyncDerived` (or arena `AsyncDerived`) over
 //! three input signals, whose fetch futures are completed by the history; optionally an `Effect`
 //! that reads it (a dependent) and hand-polled awaiters. Shapes and events are documented in
-//! coq/theories/Reactive/AsyncRun.v.
+//! coq/theories/Reactive/AsyncRun.v; event `(9)` (a synchronous read under the Suspense boundary) is
+//! known to the harness and the Python oracle only.
 use crate::exec;
 use futures::channel::oneshot;
 use leptos_server::{ArcLocalResource, ArcOnceResource, ArcResource, LocalResource, OnceResource, Resource};
@@ -360,6 +361,7 @@ fn run_in(c: &Sexp) -> Sexp {
         vis.push(vis[0] + 1);
     }
     let vis = vis;
+    let sync_reads = c.at(4).list().iter().any(|e| e.at(0).num() == 9);
     let mut awaiters: Vec<Awaiter> = vec![];
     let obs = |awaiters: &Vec<Awaiter>| -> Sexp {
         let aw = awaiters
@@ -453,7 +455,18 @@ fn run_in(c: &Sexp) -> Sexp {
                     poll_awaiter(aw);
                 }
             }
+            9 => {
+                // a synchronous read under the Suspense boundary: takes one of the boundary's
+                // tasks and spawns a helper that gives it back once the node is ready
+                read_under_boundary = true;
+                let _ = boundary.with(|| node.get_untracked());
+            }
             _ => {}
+        }
+        if sync_reads {
+            // the helper tasks of synchronous reads are not part of the history: they run as soon
+            // as they are ready
+            run_ticks(&vis);
         }
         out.push(obs(&awaiters));
     }
@@ -465,6 +478,9 @@ fn run_in(c: &Sexp) -> Sexp {
     }
     loop {
         run_all(&vis, &[]);
+        if sync_reads {
+            run_ticks(&vis);
+        }
         let n2 = FUTS.with(|f| f.borrow().len());
         let mut any = false;
         for i in 0..n2 {
